@@ -261,16 +261,22 @@ func genC14(o *hx.Out, tier string) {
 			node.Close()
 			continue
 		}
+		// the model is asked about k connections; a client that stops reconnecting leaves the
+		// observed trace short
 		var script []string
 		for i := 0; i < k; i++ {
+			script = append(script, "K0")
+		}
+		for i := 0; i < k; i++ {
+			l.(*net.TCPListener).SetDeadline(time.Now().Add(scn.Timeout)) //nolint:errcheck
 			c, err := l.Accept()
 			if err != nil {
+				scn.NoteExpired()
 				break
 			}
 			c.Write(frameB) //nolint:errcheck
 			time.Sleep(5 * time.Millisecond)
 			c.Close()
-			script = append(script, "K0")
 		}
 		l.Close()
 		want := 2 * k
